@@ -399,9 +399,10 @@ Definition _retransmit (s : st) (r : remote) (m : wire) (timeout cnt : Z) : st *
       else (s1, [LoopException KeyError])
   end.
 
+(* handles in [rtimers]: retransmissions and forgetting; on_timeout handles are created by call_later_a only and live in [atimers] *)
 Definition run_timer (s : st) (t : timer) : st * list output :=
   match kind t with
-  | EmptyAck r tok => on_timeout s r tok
+  | EmptyAck r tok => (s, [])
   | Retransmit r m timeout cnt => _retransmit s r m timeout cnt
   | Forget p md => (set_recent s (adel zz_eqb (recent s) (p, md)), [])
   end.
